@@ -68,7 +68,7 @@ Section DeliveredProofs.
     evolves out f (fst (extract_listed_loop FNMAX TS TC TA TE S zf fuel r names out f)).
   Proof.
     induction names as [|n names IH]; intros r f; cbn [extract_listed_loop]; [apply evolves_refl|].
-    destruct (get_file FNMAX TS TC TA TE S r n) as [r1 [[[bs sz]|]|e|c]]; try apply IH.
+    destruct (get_file FNMAX TS TC TA TE S r n) as [r1 [[[bs sz]|]|e|c]]; try apply IH; [|apply evolves_refl].
     destruct (create_file out n f) as [f1 o] eqn:Hcf.
     destruct (create_file_any_fs _ _ _ _ _ Hcf) as [H1 Hc].
     destruct o as [lit cp| |].
@@ -78,6 +78,17 @@ Section DeliveredProofs.
       exact (evolves_trans _ _ _ _ (Hw d) (IH _ _)).
     - exact (evolves_trans _ _ _ _ H1 (IH _ _)).
     - exact H1.
+  Qed.
+
+  (* the whole-archive form on ANY reader state over ANY stream: whatever the walk delivers, to whichever
+     names the pre-pass accepted *)
+  Lemma extract_linear_body_confined cap cut lfuel (r : rstate S) out f :
+    (forall d, concat (cut d) = d) ->
+    evolves out f (fst (extract_linear_body FNMAX TS TC TA TE S cap cut lfuel r out f)).
+  Proof.
+    intros Hcut. unfold extract_linear_body.
+    destruct (extract_linear_pool RAppend cap cut out _ _ f) as [f' b] eqn:E. cbn [fst].
+    exact (linear_through_pool_confined _ _ _ _ _ _ _ _ Hcut E).
   Qed.
 End DeliveredProofs.
 
@@ -115,8 +126,7 @@ Section AnyBytes.
     unfold CliExtract.cmd_extract_linear_pool, CliExtract.cmd_extract_selected, Cli.cmd_extract_linear, Cli.cmd_extract_listed.
     destruct (cli_open a privs) as [[p r]|e|c]; cbn [fst]; try (split; [|split; [|split]]; intros; apply evolves_refl).
     split; [|split; [|split]].
-    - destruct (extract_linear_pool RAppend cap cut out _ _ f) as [f' b] eqn:E. cbn [fst].
-      exact (linear_through_pool_confined _ _ _ _ _ _ _ _ Hcut E).
+    - apply extract_linear_body_confined. exact Hcut.
     - apply extract_listed_loop_confined.
     - destruct (linear_extract FNMAX TS TC TA TE _ lfuel r _) as [blocks|e|c].
       + destruct (extract_linear out _ blocks f) as [f' b] eqn:E. exact (extract_linear_any_fs _ _ _ _ _ _ E).
@@ -144,7 +154,7 @@ Section AnyBytes.
     cmd_extract_linear lfuel a privs out f = (f2, true) ->
     exists f', cmd_extract_linear_pool cap cut lfuel a privs out f = (f', true) /\ same_fs f' f2.
   Proof.
-    intros Hcut. unfold CliExtract.cmd_extract_linear_pool, Cli.cmd_extract_linear.
+    intros Hcut. unfold CliExtract.cmd_extract_linear_pool, CliExtract.extract_linear_body, Cli.cmd_extract_linear.
     destruct (cli_open a privs) as [[p r]|e|c]; try discriminate.
     destruct (linear_extract FNMAX TS TC TA TE _ lfuel r _) as [blocks|e|c] eqn:El.
     - destruct (linear_extract_d_ok _ _ _ _ _ _ _ _ _ _ El) as [u ->]. cbn [fst snd is_ok].
@@ -197,6 +207,22 @@ Section LoopSpec.
     destruct (Hc zf fuel (fuel_lookup FNMAX TS TC TA TE H order HHlen Horder ops sf rs Hrun Hok Hutf Hlen64 Hfoot32 S R files Hops
                             fuel Hfuel r n HRS Hin)) as (bs' & -> & HRS2).
     unfold extract_member. cbn [fst snd].
+    destruct (create_file out n f) as [f1 [lit cp| |]].
+    - exact (IH (fun m Hm => Hall m (or_intror Hm)) _ _ HRS2).
+    - exact (IH (fun m Hm => Hall m (or_intror Hm)) _ _ HRS').
+    - reflexivity.
+  Qed.
+
+  (* ... and none of its copies runs out of fuel: the premise of SrcTie3Cli.extract_selected_sim is met *)
+  Lemma copies_fuelled_created out names : (forall n, In n names -> In n (map fst files)) -> forall r f, RS r ->
+    copies_fuelled FNMAX TS TC TA TE S zf fuel r names out f = true.
+  Proof.
+    induction names as [|n names IH]; intros Hall r f HRS; cbn [copies_fuelled]; [reflexivity|].
+    pose proof (Hall n (or_introl eq_refl)) as Hin.
+    destruct (file_step FNMAX TS TC TA TE H order Htags HHlen Horder ops sf rs Hrun Hok Hutf Hlen64 Hfoot32 S R HR files Hops
+                r n HRS Hin) as (r' & bs & -> & HRS' & _ & Hc).
+    destruct (Hc zf fuel (fuel_lookup FNMAX TS TC TA TE H order HHlen Horder ops sf rs Hrun Hok Hutf Hlen64 Hfoot32 S R files Hops
+                            fuel Hfuel r n HRS Hin)) as (bs' & -> & HRS2).
     destruct (create_file out n f) as [f1 [lit cp| |]].
     - exact (IH (fun m Hm => Hall m (or_intror Hm)) _ _ HRS2).
     - exact (IH (fun m Hm => Hall m (or_intror Hm)) _ _ HRS').
@@ -258,6 +284,25 @@ Section Benign.
     rewrite Hfil.
     exact (extract_listed_loop_spec FNMAX TS TC TA TE H order Htags HHlen Horder _ sf rs Hrun Hok Hutf' H64 H32 _ R HR files eq_refl
              zf fuel Hfuel out (sort_names (map fst files)) (sorted_in files) r f HRS).
+  Qed.
+
+  (* on a created archive that opens, ANY selection: no copy of the per-name loop runs out of fuel — the
+     premise of SrcTie3Cli.extract_selected_sim / cmd_extract_selected_src holds *)
+  Lemma extract_selected_fuelled_at cfg files sf rs privs s zf fuel a sel out f :
+    made_by_create cfg files sf rs privs s ->
+    (forall n d, In (n, d) files -> (length d < fuel)%nat) ->
+    opens_as a privs sf ->
+    exists p r, cli_open CHUNK TAG BLOCK LIMIT dh kdf wdec wtag ksf tagf dec a privs = Ok (existT _ p r) /\
+      copies_fuelled FNMAX TS TC TA TE (stack_of CHUNK TAG BLOCK ksf tagf dec a p) zf fuel r
+        (filter sel (sort_names (list_files (stack_of CHUNK TAG BLOCK ksf tagf dec a p) r))) out f = true.
+  Proof.
+    intros Hmade Hfuel Hopen. destruct Hopen as (p & r & R & Ho & HR & HRS).
+    destruct Hmade as [Hrun Hok Hutf H64 H32 _ _ _ _ _]. pose proof (create_ops_utf8 files Hutf) as Hutf'.
+    exists p, r. split; [exact Ho|].
+    rewrite (listed_sorted FNMAX TS TC TA TE H order HHlen Horder _ sf rs Hrun Hok Hutf' H64 H32 _ R files eq_refl r HRS).
+    apply (copies_fuelled_created FNMAX TS TC TA TE H order Htags HHlen Horder _ sf rs Hrun Hok Hutf' H64 H32 _ R HR files eq_refl
+             zf fuel Hfuel out); [|exact HRS].
+    intros n Hn. apply filter_In in Hn. apply (sorted_in files). exact (proj1 Hn).
   Qed.
 
   Lemma name_in_self l n : In n l -> name_in l n = true.
